@@ -1,5 +1,6 @@
 """C14 — multi-BC drag models realise the interpolated BC and leave inputs intact."""
 import copy
+import math
 
 from vlib.common import Corr, Failure, f2b, import_repo
 
@@ -87,7 +88,10 @@ def correspondence(chk, drv):
             ci.add(f'interp {f2b(xi)} {len(xp)} ' + ' '.join(f'{f2b(a)} {f2b(b)}' for a, b in zip(xp, yp)),
                    'f%d' % f2b(linear_interpolation([xi], xp, yp)[0]))
     # BCPoint constructor
+    VU = [U.FPS, U.MPS, U.KMH, U.MPH, U.KT]
     for _ in range(n * 3):
+        if rng.random() < 0.3:
+            pbc.PreferredUnits.velocity = rng.choice(VU)      # the settings change in the course of a session
         bc = rng.choice([0.0, -0.1, rng.uniform(0.05, 1)])
         mach = rng.choice([None, 0, rng.uniform(0.2, 4)])
         v = rng.choice([None, 0, rng.uniform(100, 4000), U.MPS(rng.uniform(100, 1200)), U.FPS(0)])
@@ -100,6 +104,7 @@ def correspondence(chk, drv):
         mo = '-' if not mach else str(f2b(mach))
         vo = '-' if (v is None or (not isinstance(v, pbc.AbstractDimension) and not v)) else str(f2b(pbc.PreferredUnits.velocity(v).raw_value))
         cb.add(f'bcpoint {f2b(bc)} {mo} {vo}', ans)
+    pbc.PreferredUnits.defaults()
     for c in (cm, cb, ci, cs):
         r = c.finish(drv)
         chk.corr.append(r)
@@ -123,7 +128,18 @@ def search(chk, broken):
         if chk.over():
             break
         table = rng.choice(tables)
+        if rng.random() < 0.3:
+            pbc.PreferredUnits.velocity = rng.choice([U.FPS, U.MPS, U.KMH, U.MPH])     # the settings change in the course of a session
         pts = gen_points(pbc, rng)
+        # a point given by velocity sits at that velocity over the standard sea-level speed of sound (340.29 m/s), whatever the settings
+        for p in pts:
+            if getattr(p, 'V', None) is not None and (p.V >> U.MPS) > 0:
+                indep = (p.V >> U.MPS) / (math.sqrt(15.0 + 273.15) * 20.0467)
+                if abs(p.Mach - indep) > 1e-9 * indep:
+                    chk.failures.append(Failure('bcpoint-mach', f'BCPoint(V={p.V!r}) under preferred velocity {pbc.PreferredUnits.velocity.name} sits at Mach {p.Mach}; '
+                                                                f'{p.V >> U.MPS} m/s over the standard speed of sound is Mach {indep}',
+                                                {'op': 'bcpoint-mach', 'v_mps': p.V >> U.MPS, 'observed': p.Mach, 'expected': indep, 'preferred': pbc.PreferredUnits.velocity.name}))
+                    break
         spec = sorted([(p.Mach, p.BC) for p in pts])
         wd = rng.random() < 0.5
         w, d = (U.Grain(rng.uniform(50, 300)), U.Inch(rng.uniform(0.2, 0.5))) if wd else (0, 0)
@@ -180,4 +196,5 @@ def search(chk, broken):
                 if abs(a.CD / plain.BC - b.CD / dm.BC) > 1e-12 * abs(a.CD / plain.BC):
                     chk.failures.append(Failure('single-point', 'single-BC multi model differs from the plain model', {'op': 'mbc-single'}))
                     break
+    pbc.PreferredUnits.defaults()
     chk.search_evals += evals
